@@ -633,7 +633,7 @@ def _autoforwards_function(func, args, kwargs):
 
 def autoforwards_hint(func, args, kwargs):
     h = func._sigtools__autoforwards_hint(func)
-    if h is not None:
+    if isinstance(h, tuple):
         return autoforwards_ast(h[0], h[1], h[2], args, kwargs)
     else:
         raise UnknownForwards()
